@@ -192,10 +192,20 @@ static int cstl_hash_bucket_foreach(
 static int __cstl_hash_foreach(const struct cstl_hash * const h,
                                cstl_visit_func_t * const visit, void * const p)
 {
+    size_t count;
     int res;
     unsigned int i;
 
-    for (i = 0, res = 0; i < h->bucket.count && res == 0; i++) {
+    /*
+     * while the table is growing, nodes that have already been
+     * rehashed may live in buckets beyond the current count
+     */
+    count = h->bucket.count;
+    if (h->bucket.rh.hash != NULL && h->bucket.rh.count > count) {
+        count = h->bucket.rh.count;
+    }
+
+    for (i = 0, res = 0; i < count && res == 0; i++) {
         res = cstl_hash_bucket_foreach(h, h->bucket.at[i].n, visit, p);
     }
 
